@@ -9,6 +9,7 @@
 -/
 import IbcVerif.Model.Denom
 import IbcVerif.Lemmas.Denom
+import IbcVerif.Lemmas.Ics20Inv
 namespace IbcVerif.C34
 open IbcVerif IbcVerif.Xfer
 
@@ -168,6 +169,16 @@ theorem validPortId_no_sep (p : Str) (h : validPortId p = true) : '/' ∉ p := b
   intro hm
   have := h.1.1.1.1.2
   simp [List.contains_iff_mem, hm] at this
+
+/-- **Stored under the hash of exactly the full path.**  In the ICS-20 model (`SetDenom` is the only
+    writer of the denomination store, keeper.go) the store never holds two entries under one key —
+    the key being the hash of the entry's own `Path()` — after any sequence of steps whatsoever, and
+    looking an entry up by the hash of its path returns exactly that entry. -/
+theorem denom_stored_under_hash (cfg : Ics20.Config) (w : Ics20.World) (ops : List Ics20.Op)
+    (h0 : Ics20.DenomsKeyed cfg w) (c : Nat) :
+    ∀ d ∈ ((Ics20.run cfg w ops).chains c).denoms,
+      Ics20.getDenom cfg ((Ics20.run cfg w ops).chains c) (cfg.hashHex d.path) = some d :=
+  fun d hd => Ics20.getDenom_of_mem (Ics20.denomsKeyed_run cfg ops w h0 c) d hd
 
 /-- non-vacuity: accepted paths with unexpected shapes — a trace followed by a multi-segment base, and
     a client-id hop — parse and round-trip; a path ending in a hop does not validate. -/
